@@ -63,7 +63,8 @@ def run(ctx):
         init = rng.choice(["pp", "pp", "random", "pp_sample"])
         seed = rng.randrange(10 ** 6)
         drop = rng.choice([None, None, 1, 2])
-        max_it = rng.choice([1, 2, 5, 10])
+        max_it = rng.choice([1, 2, 5, 10, 0])     # 0: no iteration at all, the clusters of the initial centres
+        stop_at = rng.choice([None, None, None, 1, 2])     # monitor_distances returning False is the documented way to stop
         parallel = (not ctx.quick) and rng.random() < 0.05
         as_matrix = equal and rng.random() < 0.4
         layout = rng.choice(["C", "C", "strided", "F"])
@@ -91,7 +92,7 @@ def run(ctx):
                 data.append(a_)
         ctx.count("layout:" + layout)
         snapshot = [np.array(s, dtype=float) for s in ss]
-        wit = dict(series=ss, k=k, options=dict(opts), init=init, seed=seed, drop_stddev=drop, max_it=max_it, ndim=nd, thr=None,
+        wit = dict(series=ss, k=k, options=dict(opts), init=init, seed=seed, drop_stddev=drop, max_it=max_it, monitor_stops_at_call=stop_at, ndim=nd, thr=None,
                    parallel=parallel, container=("matrix" if as_matrix else "list") + "/" + layout)
         thr = rng.choice([0.0001, 0.0001, 0.05, 0.2, 0.5, 1.0])     # coarse thresholds stop on "no change in means"
         kwargs = dict(k=k, max_it=max_it, max_dba_it=rng.choice([1, 3, 10]), drop_stddev=drop, dists_options=dict(opts),
@@ -106,6 +107,9 @@ def run(ctx):
         def monitor(cd, final):
             ctx.count("monitor_callbacks_observed")
             trace.append((final, [(int(c), float(d)) for c, d in cd]))
+            if stop_at is not None and not final and len(trace) >= stop_at:
+                ctx.count("fits_stopped_by_monitor")
+                return False
             return True
         ctx.current("kmeans %r" % (wit,))
         np.random.seed(seed)
